@@ -37,6 +37,9 @@ def version_grid(thorough):
                 if (ma, mi, pa) != (5, 4, 1):
                     vs.append((ma, mi, pa))
     vs += [(0, 0, 0), (255, 255, 255)]
+    # components with more digits than the manager's own: orders that differ between comparing
+    # numbers, strings and decimal fractions (5.4.10 vs 5.4.1, 5.10.0 vs 5.4.0, 5.3.200)
+    vs += [(5, 4, 10), (5, 4, 100), (5, 10, 0), (5, 40, 1), (5, 3, 200), (5, 4, 11), (50, 4, 1), (5, 0, 41)]
     if thorough:
         vs += [(5, 0, 0), (5, 0, 255), (5, 255, 0), (5, 255, 255), (5, 4, 255), (5, 3, 255),
                (5, 5, 0), (0, 4, 1), (255, 4, 1), (5, 4, 0)]
